@@ -95,7 +95,7 @@ func Prop() *core.Prop {
 		Assumptions: []string{
 			"bufconn.Pipe is a faithful reliable ordered transport",
 			"the closing side's reader is only required to deliver a prefix of what the other side wrote; the non-closing side's last 0-2 bytes (incomplete base64 group) may legitimately wait for its own close",
-			"after a packet of the stream itself was refused (out-of-sequence, undecodable, oversize) nothing more is demanded of that stream than that bytes delivered before stay unchanged",
+			"after a packet of the stream itself was refused (out-of-sequence, undecodable) nothing more is demanded of that stream than that bytes delivered before stay unchanged; for a packet refused for exceeding the receive buffer the reader's bytes must in addition be a prefix of the accepted packets (the refused packet is never delivered)",
 		},
 		Cases: func(tier string) int {
 			if tier == "thorough" {
@@ -115,7 +115,7 @@ func Prop() *core.Prop {
 			"close_fail_cases", "local_close_failed_timeout", "local_close_failed_write-fails", "close_concurrent_with_inbound_data", "packets_after_failed_or_concurrent_close", "serve_loop_alive_after_failed_close",
 			"listener_cases", "listener_expects_given_up", "listener_expect_took_precedence", "listener_expect_replaced", "listener_closed_while_open_pending",
 			"listener_close_unblocked_accept", "listener_relisten_works", "listener_concurrent_expects", "listener_open_refused_closed_listener", "listener_streams_used",
-			"set_read_buffer_unlimited", "set_read_buffer_below_block", "passive_side_holds_base64_remainder_at_close", "passive_side_unflushed_at_close", "serve_loops_alive_after_transfer",
+			"oversize_refusals_checked_against_reader", "set_read_buffer_unlimited", "set_read_buffer_below_block", "passive_side_holds_base64_remainder_at_close", "passive_side_unflushed_at_close", "serve_loops_alive_after_transfer",
 			"forced_I1_reached", "forced_I2_reached", "forced_I3_reached",
 		},
 	}
